@@ -17,6 +17,6 @@ OResp(id, v, nostore, private, shared) ==
   /\ UNCHANGED <<contacted, reqs>>
 Storable(m) == ~m.nostore /\ ~m.private /\ ~m.reqNoStore /\ (m.reqAuth => m.shared)
 CResp(id, hv) ==
-  /\ (id \in contacted \/ hv = NoVal \/ hv \notin DOMAIN vers \/ Storable(vers[hv]))
+  /\ (IF id \in contacted \/ hv = NoVal \/ hv \notin DOMAIN vers THEN TRUE ELSE Storable(vers[hv]))
   /\ UNCHANGED svars
 ====
